@@ -1,6 +1,8 @@
 """C18 - bit widths reported for a concrete model bound the values it really produces.
-Only the weight-based estimator clause (estimate.analyze_accumulator) is covered: the data-type-map clauses need QTools(model),
-whose graph construction aborts under the pinned Keras 3."""
+Two parts: the weight-based estimator (estimate.analyze_accumulator, symbolic weights and input range) and the qtools data-type
+map: QTools(model) builds its graph through a handful of legacy Keras attributes that the pinned Keras 3 no longer has; they are
+supplied as environment stubs (vf/legacy_keras.py), after which the real pipeline (qgraph, generate_layer_data_type_map, the
+multiplier / accumulator / adder factories) runs on real models and the types it reports are checked with the solver."""
 import itertools
 import numpy as np
 import z3
@@ -136,7 +138,221 @@ def _val(m, k, d=0.0):
   return v[0] / v[1] if isinstance(v, list) else float(v)
 
 
+# ---- the qtools data-type map ------------------------------------------------------------------------------------------------
+def map_models():
+  """(name, builder) - small real quantized models; every weight layer is followed or preceded by quantized activations"""
+  keras = layers.K3()
+  Q = layers.qk()
+
+  def dense_stack():
+    i = keras.Input((4,), name="in")
+    y = Q.QDense(3, kernel_quantizer="quantized_bits(4,0,1,alpha=1)", bias_quantizer="quantized_bits(4,0,1,alpha=1)", name="d1")(i)
+    y = Q.QActivation("quantized_relu(4,1)", name="a1")(y)
+    y = Q.QDense(2, kernel_quantizer="quantized_bits(3,0,1,alpha=1)", use_bias=False, name="d2")(y)
+    y = Q.QActivation("quantized_bits(6,2,1,alpha=1)", name="a2")(y)
+    y = Q.QDense(2, kernel_quantizer="binary(alpha=1)", bias_quantizer="quantized_bits(6,2,1,alpha=1)", name="d3")(y)
+    return keras.Model(i, y)
+
+  def conv_stack():
+    i = keras.Input((4, 4, 1), name="in")
+    y = Q.QConv2D(2, (2, 2), kernel_quantizer="ternary(alpha=1)", bias_quantizer="quantized_po2(4)", name="c1")(i)
+    y = Q.QActivation("quantized_relu(4,1)", name="a1")(y)
+    y = Q.QDepthwiseConv2D((2, 2), depthwise_quantizer="quantized_bits(3,0,1,alpha=1)", use_bias=False, name="dw")(y)
+    y = keras.layers.Flatten(name="f")(y)
+    y = Q.QDense(2, kernel_quantizer="quantized_po2(4)", bias_quantizer="quantized_bits(4,0,1,alpha=1)", name="d2")(y)
+    return keras.Model(i, y)
+
+  def conv1d_stack():
+    i = keras.Input((5, 2), name="in")
+    y = Q.QConv1D(2, 3, kernel_quantizer="quantized_bits(5,1,1,alpha=1)", bias_quantizer="quantized_bits(5,1,1,alpha=1)", name="c1")(i)
+    y = Q.QActivation("quantized_relu_po2(4)", name="a1")(y)
+    y = Q.QConv1D(1, 2, kernel_quantizer="quantized_bits(4,0,0,alpha=1)", use_bias=False, name="c2")(y)
+    return keras.Model(i, y)
+  def auto_po2_dense():
+    i = keras.Input((4,), name="in")
+    y = Q.QDense(3, kernel_quantizer="quantized_bits(4,0,1,alpha='auto_po2')", bias_quantizer="quantized_bits(4,0,1,alpha=1)", name="d1")(i)
+    m = keras.Model(i, y)
+    # channels of very different magnitude -> different power-of-two scales (4, 2, 1/8); one call records them on the quantizer
+    m.set_weights([np.array([[0.9, -2.3, 0.05], [0.11, 1.7, -0.1], [3.9, -0.4, 0.02], [1.0, 0.2, 0.07]], dtype=np.float32), np.zeros(3, dtype=np.float32)])
+    m(np.zeros((1, 4), dtype=np.float32))
+    return m
+  return [("auto_po2_dense", auto_po2_dense, "quantized_bits(8,0,1)"), ("dense_stack", dense_stack, "quantized_bits(8,0,1)"), ("conv_stack", conv_stack, "quantized_bits(8,0,1)"), ("conv1d_stack", conv1d_stack, "quantized_bits(4,2,0)")]
+
+
+def kind_of(t):
+  cn = type(t).__name__
+  if cn in ("QuantizedBits", "QuantizedRelu"):
+    return "fixed"
+  if cn in ("PowerOfTwo", "ReluPowerOfTwo"):
+    return "po2s" if t.is_signed else "po2u"
+  if cn == "Ternary":
+    return "ternary"
+  if cn == "Binary":
+    return "binary01" if t.use_01 else "binary"
+  return "float"
+
+
+def trange(t, qi):
+  """(grid exponent, lo code, hi code) of a qtools type object; QuantizedRelu is an unsigned (or, if leaky, signed) fixed-point type"""
+  from . import c17
+  if type(t).__name__ == "QuantizedRelu":
+    s = int(bool(t.is_signed))
+    mag = int(t.bits) - s
+    return (-(int(t.bits) - s - int(t.int_bits)), -s * 2 ** mag, 2 ** mag - 1)
+  return c17.type_range(t, qi)
+
+
+def fan_in(layer, wshape):
+  cn = type(layer).__name__
+  if cn == "QDepthwiseConv2D":
+    return int(np.prod(wshape[:-2]))
+  return int(np.prod(wshape[:-1]))
+
+
+def tdesc(t):
+  if t is None:
+    return None
+  return dict(type=type(t).__name__, bits=int(t.bits), int_bits=int(t.int_bits), is_signed=int(bool(t.is_signed)), max_val_po2=getattr(t, "max_val_po2", None))
+
+
+def map_part(run):
+  from .. import legacy_keras, qtypes
+  from . import c16, c17
+  added = legacy_keras.install()
+  run.aux["legacy_keras_stubs"] = sorted(set(run.aux.get("legacy_keras_stubs", [])) | set(added)) or run.aux.get("legacy_keras_stubs", [])
+  Q = layers.qk()
+  from qkeras.qtools import run_qtools
+  qi = c16.mods()[2]
+  for mname, mk, src in map_models():
+    try:
+      model = mk()
+      qt = run_qtools.QTools(model, process="horowitz", source_quantizers=[Q.quantizers.get_quantizer(src)], is_inference=False, weights_path=None,
+                             keras_quantizer="fp32", keras_accumulator="fp32", for_reference=False)
+      lmap = qt._layer_map["layer_data_type_map"]
+    except Exception as e:  # pylint: disable=broad-except
+      import traceback
+      traceback.print_exc()
+      run.inconclusive_("QTools cannot process %s: %r" % (mname, e))
+      continue
+    for layer, item in lmap.items():
+      if not isinstance(item, dict) or item.get("multiplier") is None:
+        continue
+      tag = "%s/%s" % (mname, layer.name)
+      xin = item["input_quantizer_list"][0]
+      wq, bq = item["weight_quantizer"], item["bias_quantizer"]
+      mult, acc = item["multiplier"].output, item["accumulator"].output
+      n = fan_in(layer, tuple(item["w_shapes"]))
+      meta = dict(model=mname, layer=layer.name, fan_in=n, input=tdesc(xin), weight=tdesc(wq), bias=tdesc(bq), multiplier=tdesc(mult), accumulator=tdesc(acc))
+      rep = dict(clause="datatype_map", model=mname, layer=layer.name)
+      if kind_of(mult) == "float" or kind_of(acc) == "float":
+        run.aux.setdefault("floating_point_entries", []).append(tag)
+        continue
+      # every sum of fan_in products (input value x weight value) plus a bias value is a value of the reported accumulator type.
+      # The products of two code ranges lie between the smallest and the largest corner product on the grid 2^(gx+gw); a sum of
+      # fan_in of them is S * 2^(gx+gw) with S between fan_in times those corners (both ends are attained: all taps equal).
+      tx, tw = trange(xin, qi), trange(wq, qi)
+      corners = [a * b for a in (tx[1], tx[2]) for b in (tw[1], tw[2])]
+      tm = (tx[0] + tw[0], min(corners), max(corners))
+      g0 = tm[0]
+      S = z3.Int("S")
+      dom = [S >= n * tm[1], S <= n * tm[2]]
+      bias_terms = [(z3.IntVal(0), 0)]
+      if bq is not None and getattr(layer, "use_bias", True):
+        kb = kind_of(bq)
+        if kb == "fixed":
+          tb = trange(bq, qi)
+          cb = z3.Int("cb")
+          dom += [cb >= tb[1], cb <= tb[2]]
+          bias_terms = [(cb, tb[0])]
+        elif kb.startswith("po2"):
+          mn, mx = qi.get_exp(bq)
+          sb = z3.Int("sb")
+          dom.append(z3.Or(sb == 1, sb == -1) if bq.is_signed else sb == 1)
+          eb = z3.Int("eb")
+          dom += [eb >= -int(mn), eb <= int(mx)]
+          bias_terms = [(sb, None)]
+          g0 = min(g0, -int(mn))
+      # total on the common grid
+      if bias_terms[0][1] is None:
+        btot = z3.Sum([z3.If(eb == k, sb * (2 ** (k - g0)), 0) for k in range(-int(mn), int(mx) + 1)])
+      else:
+        gb = bias_terms[0][1]
+        g0 = min(g0, gb)
+        btot = bias_terms[0][0] * (2 ** (gb - g0))
+      # kernels with an auto power-of-two scale: the weight values are scale_c * code; the entry to check is the scale-adjusted
+      # ("fused") accumulator, for every channel's recorded scale
+      kq = layer.get_quantizers()[0]
+      shifts = [0]
+      if getattr(kq, "alpha", None) == "auto_po2" and item.get("fused_accumulator") is not None:
+        sc = np.asarray(kq.scale, dtype=np.float64).reshape(-1)
+        lg = np.log2(sc)
+        if not np.all(lg == np.round(lg)):
+          run.inconclusive_("%s: recorded auto_po2 scale is not a power of two: %s" % (tag, sc.tolist()))
+          continue
+        shifts = sorted(set(int(v) for v in lg))
+        acc = item["fused_accumulator"].output
+        meta = dict(meta, accumulator=tdesc(acc), auto_po2_shifts=shifts, entry="fused_accumulator")
+      g0 = min(g0, tm[0] + min(shifts))
+      K = z3.Int("shift")
+      dom.append(z3.Or(*[K == k for k in shifts]))
+      scaled = z3.Sum([z3.If(K == k, S * (2 ** (tm[0] + k - g0)), 0) for k in shifts])
+      if bias_terms[0][1] is None:
+        btot = z3.Sum([z3.If(eb == k, sb * (2 ** (k - g0)), 0) for k in range(-int(mn), int(mx) + 1)])
+      else:
+        btot = bias_terms[0][0] * (2 ** (bias_terms[0][1] - g0))
+      total = scaled + btot
+      mem, inb = qtypes.member_fixed(total, z3.IntVal(g0), acc.bits, acc.int_bits, acc.is_signed) if kind_of(acc) == "fixed" else (None, None)
+      if mem is None:
+        run.aux.setdefault("non_fixed_accumulators", []).append(tag)
+        continue
+      v, mdl = harness.z3_query(run, "map_%s_%s_sum" % (mname, layer.name), dom + [inb], [z3.Not(mem)], dict(meta, clause="map_accumulator"))
+      if mdl is not None:
+        ok, detail = replay_map(dict(rep, part="sum"))
+        if ok:
+          run.violation(dict(clause="datatype_map", part="accumulator", layer_class=type(layer).__name__), dict(meta, **detail), dict(rep, part="sum"))
+        else:
+          run.inconclusive_("%s: accumulator counterexample does not reproduce: %s" % (tag, str(detail)[:200]))
+      run.configs.append("map:" + tag)
+
+
+def replay_map(rep):
+  """re-runs the real QTools on the model and evaluates the extreme products / sums with exact rationals"""
+  from fractions import Fraction
+  from .. import legacy_keras
+  from . import c16, c17
+  legacy_keras.install()
+  Q = layers.qk()
+  from qkeras.qtools import run_qtools
+  qi = c16.mods()[2]
+  mk = [m for m in map_models() if m[0] == rep["model"]][0]
+  model = mk[1]()
+  qt = run_qtools.QTools(model, process="horowitz", source_quantizers=[Q.quantizers.get_quantizer(mk[2])], is_inference=False, weights_path=None,
+                         keras_quantizer="fp32", keras_accumulator="fp32", for_reference=False)
+  item = [v for l, v in qt._layer_map["layer_data_type_map"].items() if l.name == rep["layer"]][0]
+  layer = model.get_layer(rep["layer"])
+  xin, wq, bq = item["input_quantizer_list"][0], item["weight_quantizer"], item["bias_quantizer"]
+  mult, acc = item["multiplier"].output, item["accumulator"].output
+
+  def extremes(t):
+    g, lo, hi = trange(t, qi)
+    return [Fraction(lo) * Fraction(2) ** g, Fraction(hi) * Fraction(2) ** g]
+  xs, ws = extremes(xin), extremes(wq)
+  prods = [a * b for a in xs for b in ws]
+  n = fan_in(layer, tuple(item["w_shapes"]))
+  bs = extremes(bq) if (bq is not None and getattr(layer, "use_bias", True)) else [Fraction(0)]
+  kq = layer.get_quantizers()[0]
+  scales = [Fraction(1)]
+  if getattr(kq, "alpha", None) == "auto_po2" and item.get("fused_accumulator") is not None:
+    scales = [Fraction(float(v)) for v in sorted(set(np.asarray(kq.scale, dtype=np.float64).reshape(-1).tolist()))]
+    acc = item["fused_accumulator"].output
+  sums = [s_ * n * p + b for s_ in scales for p in (min(prods), max(prods)) for b in bs]
+  bad = [s for s in sums if not c16.representable(acc, s)]
+  return bool(bad), dict(fan_in=n, extreme_sums=[str(s) for s in sums], not_representable=[str(s) for s in bad])
+
+
 def replay_concrete(rep):
+  if rep.get("clause") == "datatype_map":
+    return replay_map(rep)
   from qkeras import estimate
   Q = layers.qk()
   m = rep["model"]
@@ -198,10 +414,24 @@ def run(tier, seed):
       import traceback
       traceback.print_exc()
       r.inconclusive_("harness error on %s: %r" % (qcls, e))
-  r.functions = ["estimate.analyze_accumulator (on real QDense / QConv2D / QConv1D layer objects whose get_weights() returns arrays of symbolic reals)"]
+  try:
+    map_part(r)
+  except Exception as e:  # pylint: disable=broad-except
+    import traceback
+    traceback.print_exc()
+    r.inconclusive_("harness error in the data-type-map part: %r" % (e,))
+  r.functions = ["qtools.run_qtools.QTools.__init__ -> qgraph.CreateGraph, generate_layer_data_type_map (dense / conv / depthwise branches), "
+                 "MultiplierFactory, AccumulatorFactory, IAdder on real models (legacy Keras attributes stubbed)",
+                 "estimate.analyze_accumulator (on real QDense / QConv2D / QConv1D layer objects whose get_weights() returns arrays of symbolic reals)"]
   r.bounds = ["dense kernels 2x2 and 3x1, conv kernels 1x2x1x2, 1x1x2x2 and 2x1x2, with and without bias; weights in [-8,8], input range inside [-64,64] - all symbolic reals",
               "oracle: for every input in the range and every output channel, |sum x*k + b| <= 2^(returned accumulator size)",
-              "NOT covered: the data-type-map clauses (QTools(model) cannot build its graph under the pinned Keras 3); analyze_accumulator_from_sample; "
+              "data-type map: three real models (dense stack, conv2d/depthwise/dense stack, conv1d stack; fixed-point / ternary / binary / po2 weights, "
+              "fixed-point / po2 biases, signed and unsigned activations): per weight layer the solver decides that every sum of fan-in products "
+              "(input-type value x weight-type value) plus a bias-type value is a value of the reported accumulator type (sign, integer and "
+              "fraction bits); counterexamples are replayed with exact rationals at the extreme codes",
+              "one model with an auto_po2 kernel (recorded scales 4, 2, 1/8): the scale-adjusted accumulator entry holds scale_c * sum + bias for every channel",
+              "NOT covered: batch-norm fused entries, analyze_accumulator_from_sample; "
+              "'every weight tensor fits its reported type' is covered by C16's conversion link only; "
               "executions in which the estimator takes log2 of a non-positive bound (all-zero weights)"]
   r.assumptions = ["unfold_model is cut to the identity (it aborts under the pinned Keras 3)", "ceil(log2 n) contract", "weights are taken as the layer reports them (get_weights)"]
   r.trusted = ["z3 (NRA)", "vf.pysym proxies and shims"]
